@@ -259,12 +259,23 @@ def pointers(ctx):
             res.append(floor(rule, 'store of TxInner.meta.%s in the commit trace' % fld, 0, 1))
     # root pointer
     rule = 'C05.root-ptr'
+    cm = ctx.x(cm)           # rebalance / spill / the store may sit in a private helper of commit
     du = ctx.du(cm)
     sp = ctx.A.get('spill-role')
     rb = ctx.A.get('rebalance-role')
-    st = [(bb, si, s) for bb, si, s in stores_to_field(cm, 'Meta', 'root')]
-    if not st or sp is None or rb is None:
-        res.append(unresolved(rule, 'store of meta.root / InnerBucket::spill / rebalance'))
+    def _tx_root(pl):
+        fs = [e for e in pl['pr'] if e['k'] == 'field']
+        if len(fs) >= 2:
+            return fs[-1].get('name') == 'root' and bool(fs[-2].get('adt')) and last_seg(fs[-2]['adt']) == 'TxInner'
+        return False
+    # the transaction's own header copy (`tx.meta.root = ..`), not the header image built from it later
+    st = [(bb, si, s) for bb, si, s in stores_to_field(cm, 'Meta', 'root') if _tx_root(s['p'])]
+    if sp is None or rb is None:
+        res.append(unresolved(rule, 'InnerBucket::spill / rebalance'))
+    elif not st:
+        res.append(bad(rule, '%s | root of the spilled tree never recorded' % cm.qual,
+                       'commit never stores the value returned by the spill of the root bucket into the transaction\'s header (TxInner.meta.root): the new header keeps '
+                       'pointing at the old root page', where='%s:%d' % (cm.file, cm.line)))
     else:
         for bb, si, s in st:
             _, atoms = du.slice_operand(s['rv']['op']) if s['rv']['k'] == 'use' else (None, set())
